@@ -8,7 +8,7 @@ DECIDED = ("ownership pairing: R12.1 the guard built by every install root recor
            "the same installation (or (null, 0) where nothing is mapped); R12.2 the guard's destructor releases (self.ptr, self.size) exactly "
            "once on every normal path with a non-null pointer and never with a null one, the guard type is neither Clone nor Copy and is "
            "constructed at one site only; R12.3 the release primitive has no call site outside the allocator's reject edge and the "
-           "destructor; R12.5 every mapping the placement search obtains is returned or released before the next probe (C11 R11.1/R11.2); R12.4 on every normal path of an install root the allocation result reaches the stored guard (with C02 R2.3/R2.4: "
+           "destructor; R12.6 the guard saved as many bytes as it restores, at the address written (C03 R3.8: otherwise its destructor panics before the release); R12.5 every mapping the placement search obtains is returned or released before the next probe (C11 R11.1/R11.2); R12.4 on every normal path of an install root the allocation result reaches the stored guard (with C02 R2.3/R2.4: "
            "every guard is dropped exactly once when the injector goes away)")
 NOT_DECIDED = "a mapping left behind by an installation that fails after allocating (outside the property's 'successful installation')"
 
@@ -67,6 +67,22 @@ def run(ck, models, tier):
                 ok_s = True
                 if g.jit_size:
                     ok_s = isinstance(js, Int) and isinstance(size, Int) and same_expr(js.e, size.e)
+                    if not ok_s and isinstance(js, Int) and js.e.op == "field" and js.e.args[0].op == "ret" and js.e.args[0].args[0] == a.name:
+                        # the allocator hands back {pointer, length}: the guard keeps that length - it is the mapped length if, on every
+                        # returning path of the allocator, that field is the length given to the mapping call
+                        fname = js.e.args[1]
+                        try:
+                            avs = [x for x in allocator_variants(tm, a.name) if x.status == "returned"]
+                        except Exception:
+                            avs = []
+                        def fld(val):
+                            if isinstance(val, Adt) and val.fnames and fname in val.fnames:
+                                return val.fields[val.fnames.index(fname)]
+                            return None
+                        def maplen(x):
+                            mm = [e for e in x.trace if e.kind == "ffi" and e.name in ALLOC_FFI]
+                            return mm[-1].args[1] if mm and len(mm[-1].args) > 1 else None
+                        ok_s = bool(avs) and all(isinstance(fld(x.ret), Int) and isinstance(maplen(x), Int) and same_expr(fld(x.ret).e, maplen(x).e) for x in avs)
                 ck.ob("R12.1", "%s/guard-owns-mapping" % rn, tm.target, ok_p and ok_s and len(al) == 1,
                       "allocation %s(size=%s) -> %s; guard.%s = %s, guard.%s = %s; allocations on this path: %d" % (
                           short(a.name), fmt(size.e) if isinstance(size, Int) else size, fmt(a.ret.e, 3) if isinstance(a.ret, Int) else a.ret,
@@ -118,6 +134,9 @@ def run(ck, models, tier):
             # R12.4 the release comes after the restore
             k4 = restore_before_release(ck, tm, g, "R12.4")
             ck.floor("R12.4", "drop-paths-with-restore-and-release", k4, 1, tm.target)
+            # R12.6 the destructor gets as far as the release: what it restores is what the installation wrote and saved (C03 R3.8) - a
+            # guard that saved fewer bytes than it will slice out panics in its destructor before the mapping is released
+            restore_lands_on_entry(ck, tm, g, "R12.6", patches.roots_and_roles(tm))
             # R12.5 "the executable anonymous mappings are the same after any number of cycles": every mapping the placement search obtains is
             # either the one it returns or released before the next probe (C11 R11.1/R11.2) - a probe that is neither stays mapped for ever
             from .c11 import allocator_obligations
